@@ -39,6 +39,27 @@ CHECKS = {
  "C19": ("exploration", "metamorphic monitor (permutation / removal / balance) on the real ring with boundary probes and collision search, end-to-end node logs", "§3 C19",
          "The real Continuum routes random keys and every ring point +-1 identically for all permutations, re-routes only the removed node's keys, gives every node a share; label sets with colliding ring points are searched; set/get through two handlers must reach the same fake TCP node.",
          "weights are constant 1 in the code; ring points are recomputed only to place probes"),
+ "C03": ("exploration", "controlled-scheduler exploration of the real locked orchestrators + porcupine linearizability checking; free-running stress histories", "§3 C03",
+         "Real LockedOrca/L1L2/L1L2Batch code runs over real std handlers and fake backends with lock acquisitions and backend requests as scheduling points (lockers replaced through the verif hook); all schedules of small programs are enumerated, each history checked with porcupine and the final stores for L1 subset of L2; client-side histories of the real memproxy --locked under stress are checked too.",
+         "exhaustive only over our scheduling points; backend requests atomic; stress shows only the OS's schedules"),
+ "C09": ("exploration", "per-command deadline probe on every fake tier entry against the reference model on a shared virtual clock + virtual-time read-back", "§3 C09",
+         "After every command of seeded sequences the deadline of every live entry of the key in every fake tier (metadata and chunks for chunked L1) must equal the model's; then the virtual clock is moved around every deadline and reads must hit/miss like the model; both gete conventions.",
+         "TTL classes >= 1000 s apart; tolerance = real elapsed + 2 s only where rend derives absolute times from its own clock"),
+ "C10": ("fault_enumeration", "single-fault enumeration at the fake backends with strict client decoding, state-based hang verdict and possible-state model", "§3 C10",
+         "For each short program every (tier, backend request index, fault kind) is injected once; the client stream must be well-formed and end in a reply or a close, the process and a bystander connection must be unaffected, hangs are decided from goroutine dumps with idle backends, verification reads are judged by a possible-state model.",
+         "single faults; not-found/not-stored statuses are made truthful by evicting the entry; 'key exists' is not injected"),
+ "C12": ("fault_enumeration", "instrumented lockers (holder table) + panic/error injection at every call of handlers and responder under the real server loop", "§3 C12",
+         "The real server.Loop runs over orcas.Locked with recording lockers installed through the hook; a dry run counts the calls a command makes, then panic / I/O error / application error is injected at every call; holder table empty, <= 1 lock per connection, probe on the same key completes, panic closes the connection; plus opposite-order multi-gets and vanishing clients.",
+         "panics injected on the loop goroutine; connection = loop goroutine"),
+ "C13": ("fault_enumeration", "planned connection cuts at the fake backend + per-caller possible-state models + bounded-progress checks under the race detector", "§3 C13",
+         "Pooled connections are cut idle / before / after / inside the reply of the j-th request of a burst, repeatedly and with a listener outage; every call must return one outcome consistent with the caller's possible states (errors only with a cut in flight), multi-gets complete or error, process alive, exact service after the pool is whole again.",
+         "which side of the swap a write lands on is up to the OS scheduler; retried writes may apply twice"),
+ "C14": ("exploration", "Go race detector on memproxy and on the batching pool under loss + per-connection reference models on private keys", "§3 C14",
+         "memproxy -race serves up to 64 concurrent connections on private keys with an error-reply-heavy mix while /metrics is scraped; each connection's replies are compared with its own model and every race report with a rend frame is a violation; the pool's recovery path is driven by C13's workload under -race.",
+         "absence of a report is not absence of a race; detection is probabilistic per run, workloads are shaped for the known-hard pooled-object pattern"),
+ "C15": ("fault_enumeration", "prefix enumeration of client streams with backend connection accounting, fresh-client probes and goroutine dumps", "§3 C15",
+         "For every prefix length of representative request streams a client connects, sends the prefix and disappears (close / half-close / reset); the fake backends' open-connection counts must return to baseline, a fresh client must be served on the same keys, and the final goroutine dump must contain no goroutine serving a connection.",
+         "'closed' = the fake backend saw EOF/reset; prefixes beyond 160 bytes are sampled"),
 }
 NOT_YET = {}
 
